@@ -198,7 +198,9 @@ def run(ctx):
     # ------------------------------------------------------------------ R4
     ctx.rule("C20.R4", "submission and splitting", floor=2)
     # Enter returns true only after update_next
-    trues = [b for b, i, s in hk.assigns() if s["p"]["l"] == 0 and place_is_local(s["p"]) and hk.rvalue_expr(s["r"], 2) == ("const", 1)]
+    # the "line is complete" answer of the key handler: `true`, or ControlFlow::Break(..) where the handler answers with a ControlFlow
+    trues = [b for b, i, s in hk.assigns() if s["p"]["l"] == 0 and place_is_local(s["p"])
+             and (hk.rvalue_expr(s["r"], 2) == ("const", 1) or (s["r"]["k"] == "agg" and s["r"].get("variant") == "Break" and str(s["r"].get("adt", "")).endswith("ControlFlow")))]
     ctx.need(trues, "`return true` in the key handler")
     for b in trues:
         ctx.instance(1)
